@@ -1132,6 +1132,11 @@ func (w *L1World) deliverClaim(b *wBridge, m *ophosttypes.MsgFinalizeTokenWithdr
 			w.run.Check("C05.no_finalize_before_window", v.fin != surelyNot, "c05.finalized_too_early", w.trace(), "withdrawal finalized against output %d of bridge %d before its finalization period elapsed", m.OutputIndex, m.BridgeId)
 			w.run.Distinct(fmt.Sprintf("C05/finalize/ok/fin=%d", v.fin))
 		}
+		if w.mons.C01 {
+			// "deposits minus finalized withdrawals": a withdrawal is one withdrawal however often it is submitted — a second
+			// payment for the same leaf takes other depositors' money out of the escrow
+			w.run.Check("C01.withdrawal_leaves_escrow_once", !v.paidBefore, "c01.same_withdrawal_paid_again", w.trace(), "withdrawal %x of bridge %d (output %d) left the escrow a second time", v.leaf[:6], m.BridgeId, m.OutputIndex)
+		}
 		if w.mons.C02 {
 			w.run.Check("C02.paid_at_most_once", !v.paidBefore, "c02.double_payment", w.trace(), "withdrawal %x on bridge %d paid a second time", v.leaf[:6], m.BridgeId)
 			// "Claimed answers true exactly for withdrawals that have been paid": an accepted finalization moved the money
